@@ -346,3 +346,42 @@ def flat(d):
             r.extend(flat(x))
         return r
     return [d]
+
+
+# ---- rules shared between properties ------------------------------------------------------------
+class Relabel:
+    """a Ctx that records under another rule letter: an obligation that two properties rest on is evaluated by the module
+    that owns it and reported under both properties (instance names are kept, the key carries the borrower's id/letter)"""
+
+    def __init__(self, ctx, rule):
+        self._c, self._r = ctx, rule
+
+    def __getattr__(self, n):
+        return getattr(self._c, n)
+
+    def ok(self, rule, *a, **k):
+        return self._c.ok(self._r, *a, **k)
+
+    def bad(self, rule, *a, **k):
+        return self._c.bad(self._r, *a, **k)
+
+    def check(self, cond, rule, *a, **k):
+        return self._c.check(cond, self._r, *a, **k)
+
+    def floor(self, rule, *a, **k):
+        return self._c.floor(self._r, *a, **k)
+
+    def info(self, rule, *a, **k):
+        return self._c.info(self._r, *a, **k)
+
+
+def share(ctx, owner, fn_name, letter, why):
+    """run rule function `fn_name` of module rules.<owner> under this property's letter; fail closed if it is gone"""
+    import importlib
+    mod = importlib.import_module('rules.' + owner)
+    fn = getattr(mod, fn_name, None)
+    if fn is None:
+        ctx.bad(letter, 'shared_rule_present', 'rules.%s.%s' % (owner, fn_name), '', 'the shared rule is gone: the obligation (%s) is not checked' % why)
+        return
+    ctx.info(letter, 'shared with %s.%s: %s' % (owner, fn_name, why))
+    fn(Relabel(ctx, letter))
